@@ -36,6 +36,22 @@ pub fn run(thorough: bool, seed: u64, _replay: Option<String>) -> Report {
             }
             _ => base.chars().take(rng.range(1, 60)).collect(),
         };
+        // characters a decoder or writer might be tempted to treat specially, *inside* the text
+        let text = if i % 7 == 3 {
+            let special = *rng.pick(&["\u{feff}", "\u{fffe}", "\u{fffd}", "\u{0}", "\u{feff}\u{feff}"]);
+            let cs: Vec<char> = text.chars().collect();
+            let mut out = String::new();
+            let every = rng.range(5, 25);
+            for (k, c) in cs.iter().enumerate() {
+                out.push(*c);
+                if k % every == every - 1 {
+                    out.push_str(special);
+                }
+            }
+            out
+        } else {
+            text
+        };
         let text = if i % 5 == 4 {
             format!("{}{}{}", *rng.pick(&["\u{ef}\u{bb}\u{bf}", "\u{ff}\u{fe}", "\u{fe}\u{ff}", "\u{ef}\u{bb}\u{bf}"]), text, *rng.pick(&["\u{1}\u{2}\u{3}", "\u{1}\u{1b}", " \u{7}\u{7}\u{7}\u{7}"]))
         } else {
